@@ -1,14 +1,17 @@
 (** C01 — Save/reload stability.  The lexeme-level inverses (strings, integers), the closed obligation that
     every shipped stringify / PartialEq is the writer-template instance of its grammar entry, and totality of
     the scanner.  The whole-document statement  load (write M) = M  for the generic parser / writer pair
-    splits in two: that the parser rebuilds a value from the tokens the writer emits for it is proved here for every
-    grammar ([C01_parser_rebuilds_what_the_writer_emits]); that the tokenizer cuts the written text into exactly these
-    tokens is evaluated on every conforming block of every generated document (Run/RunRT.v). *)
+    is proved in two halves for every grammar and every element without comments, include directives, A2ML and IF_DATA:
+    the parser rebuilds a value from the tokens the writer emits for it ([C01_parser_rebuilds_what_the_writer_emits]),
+    and the tokenizer cuts the text written by the writer into exactly these tokens
+    ([C01_written_text_is_cut_into_its_tokens]); [C01_block_round_trip_through_text] composes them.  The conditions are
+    executable and are evaluated, together with both conclusions, on every block of every generated document
+    (Run/RunRT.v). *)
 From Coq Require Import Ascii String List Bool NArith ZArith.
 From A2L Require Import Base.Res Text.Escape Text.IntText Lex.Tokenizer Gram.Spec Gram.WriterTable
      Gen.SpecShipped Gen.WriterShipped
      Gram.PState Gram.Parser Gram.Writer Gram.TokWriter Run.RunRT
-     Proofs.EscapeProofs Proofs.IntTextProofs Proofs.TokenizerProofs Proofs.GrammarObligations Proofs.CursorProofs Proofs.RoundTripProofs.
+     Proofs.EscapeProofs Proofs.IntTextProofs Proofs.TokenizerProofs Proofs.GrammarObligations Proofs.CursorProofs Proofs.RoundTripProofs Proofs.RoundTripOrderProofs Proofs.LexUnitsProofs Proofs.RoundTripTextProofs.
 Import ListNotations.
 
 (* add_quoted_string / unescape_string are inverse on every byte string *)
@@ -60,9 +63,64 @@ Theorem C01_parser_rebuilds_what_the_writer_emits : forall S posrs ftab ifuel f 
 Proof. exact frame. Qed.
 Print Assumptions C01_parser_rebuilds_what_the_writer_emits.
 
+(* ... and when the lists of the value are stored in the order in which the writer emits them ([in_writer_order]: every
+   list sorted for the writer's comparison - a loaded file, a sorted file, new elements appended behind placed ones -, at
+   most one child where the grammar allows one, at most one position-restricted child per group), the value that comes
+   back is the value that was written, up to layout.  Uses: the writer's comparison is a total preorder and its sort is
+   stable, so the written order of a group restricted to one kind is the stored list of that kind. *)
+Theorem C01_parser_rebuilds_the_written_value : forall S posrs ftab ifuel f F td v c so s ts rest nxt,
+  (f < F)%nat -> c_fileid c = O -> Inv s -> ps_ftab s = ftab ->
+  confb S posrs ftab f td v nxt = true -> in_writer_order S posrs f v -> ps_after s = ts ++ rest ->
+  map shape_of ts = wtoks S posrs ftab f v ++ closing (is_blockb td) (c_element c) ->
+  (is_blockb td = false -> hd_shape rest = nxt) ->
+  exists v' s', parse_ty F S ifuel td c so s = (ROk v', s') /\ adv ts s s' /\ erase v' = erase v.
+Proof. exact frame_in_order. Qed.
+Print Assumptions C01_parser_rebuilds_the_written_value.
+
+(* non-vacuity of [in_writer_order]: a group with one repeatable kind holding two elements with uids 1 and 2 *)
+Example C01_group_in_order_example :
+  let ti := mkTitem "MEASUREMENT" "Measurement" "measurement" true true (Some true) false None None in
+  let k u := VNode "Measurement" (mkLay u 1 1 1 None) [] [] [] in
+  group_in_order [] [] [ti] [[k 1%N; k 2%N]].
+Proof.
+  cbv zeta. split; [reflexivity|]. split; [vm_compute; repeat constructor|].
+  intros i ti ks Hi Hk. destruct i as [|i]; [|destruct i; discriminate]. cbn in Hi, Hk. inversion Hi; inversion Hk; subst.
+  split; [|discriminate]. repeat constructor.
+Qed.
+
+(* The lexical half: the text that the writer produces for such an element, cut by the tokenizer, gives exactly the tokens
+   [wtoks] - provided every one of these texts is a well-formed token of its type ([token_text]: identifiers start with a
+   letter or underscore and consist of identifier characters, numbers are number characters, strings are quoted and
+   escaped).  Proof: the written text is white space and token texts in alternation (for every element that meets
+   [confb]; the order of a group depends on the keys only), and on such text the scanner returns these tokens. *)
+Theorem C01_written_text_is_cut_into_its_tokens : forall S posrs ftab names f td v nxt indent,
+  confb S posrs ftab f td v nxt = true -> Forall token_text (wtoks S posrs ftab f v) ->
+  exists toks, tokenize_core 0 (write_node S posrs ftab names f v indent) = TOk toks /\ map shape_of toks = wtoks S posrs ftab f v.
+Proof. exact written_text_tokens. Qed.
+Print Assumptions C01_written_text_is_cut_into_its_tokens.
+
+(* part of the condition on the token texts always holds: every integer text the writer produces, decimal or hexadecimal,
+   for every value of every integer field type, is a well-formed number token *)
+Theorem C01_integer_texts_are_number_tokens : forall t z hex, token_text (TNumber, add_integer_text t z hex).
+Proof. exact integer_text_is_number_token. Qed.
+Print Assumptions C01_integer_texts_are_number_tokens.
+
+(* Both halves together, through text: write a block, tokenize the text (with its /end TAG), parse the tokens.  The
+   parser returns the block up to layout, with every group in written order, and consumes all tokens. *)
+Theorem C01_block_round_trip_through_text : forall S posrs ftab names ifuel f F td v tag indent so line,
+  (f < F)%nat -> is_blockb td = true ->
+  confb S posrs ftab f td v None = true -> Forall token_text (wtoks S posrs ftab f v) -> ident_text tag ->
+  exists toks v' s',
+    tokenize_core 0 (write_node S posrs ftab names f v indent ++ bytes_of " /end " ++ tag) = TOk toks /\
+    parse_ty F S ifuel td (mkCtx tag O line) so (init_state toks false 1 ftab) = (ROk v', s') /\
+    ps_after s' = [] /\ erase v' = erase (reorder S posrs f v).
+Proof. exact block_roundtrip. Qed.
+Print Assumptions C01_block_round_trip_through_text.
+
 (* non-vacuity on the shipped grammar: a document with PROJECT, MODULE, MEASUREMENT (MATRIX_DIM sequence, ANNOTATION with
    a string sequence, ECU_ADDRESS in hex) and COMPU_VTAB (sequence of structs).  All six blocks meet [confb]; for each of
-   them the tokenizer cuts the written text into exactly [wtoks] and the conclusion of the theorem evaluates to true *)
+   them every written token text is a well-formed token ([token_textb]), the tokenizer cuts the written text into exactly
+   [wtoks] and the conclusion of the theorem evaluates to true *)
 Definition c01_tab : list fentry :=
   let b := list_ascii_of_string in
   [mkFe (b "0"%string) true 0%N (b "0"%string) (b "0e0"%string) true 0%N (b "0"%string) (b "0e0"%string);
@@ -79,8 +137,8 @@ Example C01_roundtrip_conditions_are_met :
       | _ => []
       end
   | _ => []
-  end = [("Project", (true, true)); ("Module", (true, true)); ("CompuVtab", (true, true)); ("Measurement", (true, true));
-         ("Annotation", (true, true)); ("AnnotationText", (true, true))]%string.
+  end = [("Project", (true, true, true)); ("Module", (true, true, true)); ("CompuVtab", (true, true, true)); ("Measurement", (true, true, true));
+         ("Annotation", (true, true, true)); ("AnnotationText", (true, true, true))]%string.
 Proof. vm_compute. reflexivity. Qed.
 
 (* non-vacuity / examples by computation: a string with every escape, numbers at the limits *)
